@@ -29,6 +29,10 @@ class KNXIPHeader:
             raise CouldNotParseKNXIP("wrong connection header length")
         # set immediately, as we need it for tcp stream parsing before raising exception
         self.total_length = data[4] * 256 + data[5]
+        if self.total_length < KNXIPHeader.HEADERLENGTH:
+            # a frame can not end before its header does - a stream parser
+            # would not get past it
+            raise CouldNotParseKNXIP("total length smaller than header length")
         if data[1] != KNXIPHeader.PROTOCOLVERSION:
             raise CouldNotParseKNXIP("wrong protocol version")
 
